@@ -267,7 +267,11 @@ def _broker(job):
             # with disconnect-on-timeout: complete the drop and check the resend on the new connection
             for tr in net.closing_transports():
                 unanswered = [r for r in reqs if not r.res and r.cid in broker.requests]
-                tr.drop()
+                try:
+                    tr.drop()
+                except Exception as e:  # noqa
+                    ctx.check(False, "disconnect-on-timeout-drops-and-resends", "connection loss after the timeout raised %r" % (e,))
+                    return
                 ctx.log("dropped", clock.seconds())
                 at = net.pending_attempts()
                 if unanswered:
